@@ -111,7 +111,7 @@ def replay(run, prop, tier, fam="json", pyops_tier=None, want=None, ops_filter=N
                         vs = range(nv) if tier == "thorough" else [rnd.randrange(nv)]
                         for v in vs:
                             jobs.append((position, e, v, False, wc))
-                        if position == "root" and val.canon(e["pre"]) in ('{"t":"d","v":{}}', '{"t":"l","v":[]}'):
+                        if position == "root" and val.canon(e["pre"]) in (val.EMPTY_D, val.EMPTY_L):
                             jobs.append((position, e, 0, True, wc))
                     if sample is not None and len(jobs) > sample:
                         keep = [j for j in jobs if j[3]]
